@@ -279,3 +279,150 @@ def lb_py_check(case, obs, need_write=True):
             why.append('ITZON differs')
     return why
 
+
+
+# ----------------------------------------------------------------------------- one3d family, evaluated in Coq (Model/One3d.v)
+def is_o3(case):
+    return case.get('content', {}).get('fmt') in M.O3_FORMATS and not case.get('sweep')
+
+
+def run_o3(case):
+    """reference-encoded file (optionally cut) -> library Memmap reader (open + read the data) -> (whole file) ncf2one3d"""
+    c = case['content']
+    fmt = c['fmt']
+    ws = M.encode(c)
+    b = L.bytes_of_words(ws)
+    cut = case.get('cut')
+    d = L.workdir()
+    obs = dict(nwords=len(ws), cut=len(b) if cut is None else cut)
+    try:
+        p = os.path.join(d, 'f.bin')
+        with open(p, 'wb') as f:
+            f.write(b if cut is None else b[:cut])
+        holder = {}
+
+        def mm():
+            holder['f'] = M.open_memmap(fmt, p, c)
+            return M.observe(holder['f'], fmt)
+        st, o = _guard(mm)
+        obs['mm'] = dict(status=st, view=o if st == 'ok' else None, err=o if st == 'raises' else None)
+        if st == 'ok' and cut is None:
+            p2 = os.path.join(d, 'g.bin')
+
+            def wr():
+                M.write(fmt, holder['f'], p2)
+                return L.words_of_bytes(open(p2, 'rb').read())
+            st2, w = _guard(wr)
+            obs['wr'] = dict(status=st2, words=w if st2 == 'ok' else None, err=w if st2 == 'raises' else None)
+            if st2 == 'ok' and case.get('reread'):
+                st3, o3 = _guard(lambda: M.observe(M.open_memmap(fmt, p2, c), fmt))
+                obs['rr'] = dict(status=st3, view=o3 if st3 == 'ok' else None)
+    finally:
+        shutil.rmtree(d, ignore_errors=True)
+    signal.setitimer(signal.ITIMER_REAL, 60.0)
+    return obs
+
+
+def o3_shape_ok(c, view):
+    arr = view['data'].get(M.VARS[c['fmt']][0])
+    if arr is None or list(view['data'].keys()) != M.VARS[c['fmt']]:
+        return False
+    dm = view['dims']
+    return (len(arr) == dm.get('TSTEP') and all(len(t) == dm.get('LAY') and all(len(lay) == c['ny'] and all(len(r) == c['nx'] for r in lay)
+                                                                                 for lay in t) for t in arr))
+
+
+def o3_py_check(case, obs):
+    """what the Coq term does not carry: variable name, array shape, reader that does not return"""
+    c = case['content']
+    why = []
+    mm = obs.get('mm') or {}
+    if mm.get('status') == 'timeout':
+        why.append('library reader did not return')
+    if mm.get('status') == 'ok' and not o3_shape_ok(c, mm['view']):
+        why.append('variable name or array shape is not %s (TSTEP, LAY, %d, %d)' % (M.VARS[c['fmt']], c['ny'], c['nx']))
+    return why
+
+
+def o3_term(case, obs, ctor='OD'):
+    """Coq term `OD (OCase ...)` of Corr/C09.v (OD8 for Corr/C08.v) for a run_o3 observation"""
+    c = case['content']
+    mm = obs['mm']
+    ok = mm['status'] == 'ok'
+    v, tf = M.coq_oview(c, mm['view'] if ok else None)
+    wr = obs.get('wr') or {}
+    return '(%s (OCase %s %s %s %d %s %s %s %s %s %s))' % (
+        ctor, M.coq_one3d(c), C.zlist([s['hhmm'] for s in c['steps']]), C.zlist(M.encode(c)), obs['cut'], C.cbool(ok), v, tf,
+        C.cbool(not o3_py_check(case, obs)), C.cbool(wr.get('status') == 'ok'), C.zlist(wr.get('words') or []))
+
+
+def run_o3_read(case):
+    """C13: reference-encoded file -> Memmap reader and record reader (Read.py); the record reader's header fields,
+    step count and the seeks of getArray (date, time, k, byte position) are captured"""
+    c = case['content']
+    fmt = c['fmt']
+    ws = M.encode(c)
+    d = L.workdir()
+    obs = dict(nwords=len(ws))
+    try:
+        p = os.path.join(d, 'f.bin')
+        with open(p, 'wb') as f:
+            f.write(L.bytes_of_words(ws))
+        st, o = _guard(lambda: M.observe(M.open_memmap(fmt, p, c), fmt))
+        obs['mm'] = dict(status=st, view=o if st == 'ok' else None, err=o if st == 'raises' else None)
+        cap = {}
+
+        def rd():
+            r = M.open_read(fmt, p, c)
+            cap['self'] = dict(start_date=int(r.start_date), start_time=float(r.start_time), time_step=float(r.time_step),
+                               nlayers=int(r.nlayers), padded_size=int(r.padded_size), data_start_byte=int(r.data_start_byte),
+                               count=int(r.time_step_count))
+            seeks, pos = [], []
+            orig_new = r.rffile._newrecord
+
+            def newrec(x):
+                pos.append(int(x))
+                return orig_new(x)
+            r.rffile._newrecord = newrec
+            orig_seek = r.seek
+
+            def seek(date=None, time=None, k=1, chkvar=True):
+                n0 = len(pos)
+                res = orig_seek(date, time, k, chkvar)
+                if len(pos) > n0 and date is not None and float(time) == int(time) and float(date) == int(date):
+                    seeks.append([int(date), int(time), int(k), pos[-1]])
+                return res
+            r.seek = seek
+            cap['seeks'] = seeks
+            return M.observe(r, fmt)
+        st4, o4 = _guard(rd, 4.0)
+        obs['rd'] = dict(status=st4, view=o4 if st4 == 'ok' else None, err=o4 if st4 == 'raises' else None)
+        obs['self'] = cap.get('self')
+        obs['seeks'] = (cap.get('seeks') or [])[:60] if st4 == 'ok' else []
+    finally:
+        shutil.rmtree(d, ignore_errors=True)
+    signal.setitimer(signal.ITIMER_REAL, 60.0)
+    return obs
+
+
+def o3_term_read(case, obs):
+    """Coq term `OC (OCase13 ...)` of Corr/C13.v"""
+    c = case['content']
+    mm, rd = obs['mm'], obs['rd']
+    mv = M.coq_oview(c, mm['view'] if mm['status'] == 'ok' else None)[0]
+    rv = M.coq_oview(c, rd['view'] if rd['status'] == 'ok' else None)[0]
+    s = obs.get('self')
+    ok = bool(s) and float(s['start_time']) == int(s['start_time']) and float(s['time_step']) == int(s['time_step'])
+    if ok:
+        selft = ('{| o3r_start_date := %s; o3r_start_time := %s; o3r_time_step := %s; o3r_nlayers := %s; o3r_padded_size := %s; '
+                 'o3r_data_start_byte := %s |}') % tuple(C.zc(int(s[k])) for k in ('start_date', 'start_time', 'time_step', 'nlayers',
+                                                                              'padded_size', 'data_start_byte'))
+        count = s['count']
+    else:
+        selft = ('{| o3r_start_date := 0; o3r_start_time := 0; o3r_time_step := 1; o3r_nlayers := 1; o3r_padded_size := 0; '
+                 'o3r_data_start_byte := 0 |}')
+        count = 0
+    seeks = '[' + '; '.join('(%s, %s, %s, %s)' % tuple(C.zc(v) for v in x) for x in obs.get('seeks', [])) + ']'
+    return '(OC (OCase13 %s %s %s %s %s %s %s %s %s %s %s %s))' % (
+        M.coq_one3d(c), C.zlist([x['hhmm'] for x in c['steps']]), C.zlist(M.encode(c)), C.cbool(mm['status'] == 'ok'), mv,
+        C.cbool(rd['status'] == 'ok'), rv, C.cbool(rd['status'] == 'timeout'), C.cbool(ok), selft, C.zc(count), seeks)
